@@ -33,6 +33,9 @@ def replay(ctx, data):
     import qib
     if G.replay_composite(ctx, "C16", data):
         return
+    from checks import pauli_flags
+    if pauli_flags.replay_flag(ctx, "C16", data):
+        return
     inp = data["input"]
     try:
         gate, _ = G.build_gate(qib, G.make_fields(qib), inp)
